@@ -276,13 +276,30 @@ theorem subsetB_of_perm {xs ys : List Triple} (h : xs.Perm ys) : subsetB xs ys =
   rw [List.contains_iff_mem]
   exact h.mem_iff.1 hx
 
-/-- The spec stream passes the judge that is run on the implementation's capture stream
-(so the judge demands nothing the spec does not have). -/
-theorem judgeA_captureStream (ms : List Match) : judgeA ms (captureStream ms) none = true := by
-  unfold judgeA visibleEvents
+theorem subsetB_of_subset {xs ys : List Triple} (h : ∀ x, x ∈ xs → x ∈ ys) : subsetB xs ys = true := by
+  unfold subsetB
+  rw [List.all_eq_true]
+  intro x hx
+  rw [List.contains_iff_mem]
+  exact h x hx
+
+/-- The spec stream passes the judge that is run on the implementation's capture stream, under
+every range setting (so the judge demands nothing the spec does not have). -/
+theorem judgeA_captureStream (ms : List Match) (inc : Option TSRange) :
+    judgeA ms (captureStream ms) inc = true := by
+  unfold judgeA
   simp only [Bool.and_eq_true]
-  exact ⟨⟨subsetB_of_perm (captureStream_triples ms), subsetB_of_perm (captureStream_triples ms).symm⟩,
-    captureStream_startSorted ms⟩
+  refine ⟨⟨subsetB_of_perm (captureStream_triples ms), ?_⟩, captureStream_startSorted ms⟩
+  apply subsetB_of_subset
+  intro x hx
+  have hsub : ∀ e, e ∈ visibleEvents ms inc → e ∈ allEvents ms := by
+    intro e he
+    unfold visibleEvents at he
+    cases inc with
+    | none => exact he
+    | some r => exact (List.mem_filter.1 he).1
+  obtain ⟨e, he, rfl⟩ := List.mem_map.1 hx
+  exact (captureStream_triples ms).mem_iff.2 (List.mem_map.2 ⟨e, hsub e he, rfl⟩)
 
 /-- Conversely the judge pins the triples down: a stream that passes has exactly the triples of
 the matches (as a set). -/
@@ -294,7 +311,7 @@ theorem judgeA_triples (ms : List Match) (cs : List CapEv) (h : judgeA ms cs non
   exact ⟨fun ht => h.1.1 t ht, fun ht => h.1.2 t ht⟩
 
 def exRange (s e : Nat) : TSRange := ⟨⟨0, s⟩, ⟨0, e⟩, s, e⟩
-def exMatch : Match := ⟨0, 0, exRange 0 3, 0, false, exRange 0 0, [⟨0, 1, exRange 0 3⟩, ⟨1, 2, exRange 0 1⟩]⟩
+def exMatch : Match := ⟨0, 0, exRange 0 3, 0, false, true, exRange 0 0, [⟨0, 1, exRange 0 3⟩, ⟨1, 2, exRange 0 1⟩]⟩
 
 example : judgeA [exMatch] [⟨0, 0, 0, ⟨0, 1, exRange 0 3⟩⟩, ⟨0, 0, 1, ⟨1, 2, exRange 0 1⟩⟩] none = true := by decide
 example : judgeA [exMatch] [⟨0, 0, 1, ⟨1, 2, exRange 0 1⟩⟩] none = false := by decide
